@@ -7,7 +7,7 @@ TOKENS = [
     ("%2F", "esc-slash"), ("%3F", "esc-qmark"), ("%23", "esc-hash"), ("%26", "esc-amp"), ("%3D", "esc-eq"), ("%40", "esc-at"), ("%3A", "esc-colon"),
     ("%25", "esc-percent"), ("%2B", "esc-plus"), ("%2f", "esc-slash-lower"), ("%3d", "esc-eq-lower"),
     ("%41", "esc-unreserved"), ("%7E", "esc-unreserved"), ("%2D", "esc-unreserved"), ("%2e", "esc-dot"), ("%34", "esc-digit"),
-    ("%C3%A9", "esc-utf8"), ("%c3%a9", "esc-utf8-lower"), ("%E2%82%AC", "esc-utf8"), ("%F0%9F%98%80", "esc-utf8-4"),
+    ("%C3%A9", "esc-utf8"), ("%c3%a9", "esc-utf8-lower"), ("%cE%b1", "esc-utf8-mixed-case-hex"), ("%Ce%B1", "esc-utf8-mixed-case-hex"), ("%aB", "non-utf8-mixed-case-hex"), ("%3a", "esc-colon-lower"), ("%3f", "esc-qmark-lower"), ("%E2%82%AC", "esc-utf8"), ("%F0%9F%98%80", "esc-utf8-4"),
     ("é", "raw-nonascii"), ("€", "raw-nonascii"), ("ü", "raw-nonascii"), ("漢", "raw-nonascii"), ("😀", "raw-nonascii"),
     (" ", "raw-space"), ("%20", "esc-space"),
     ("%", "malformed"), ("%4", "malformed"), ("%zz", "malformed"), ("%%41", "malformed-then-escape"), ("%4%41", "malformed-then-escape"), ("%%34", "malformed-then-escape"),
@@ -21,7 +21,7 @@ for t, c in TOKENS:
     CLASS_OF.setdefault(t, c)
 
 # the core alphabet enumerated exhaustively (one or two representatives per class of the quantifier)
-CORE = ["a", "z", "1", ".", "!", "+", ":", "@", "/", "?", "=", "&", "#", "%2F", "%3F", "%23", "%26", "%3D", "%40", "%3A", "%25", "%2B", "%41", "%34", "%c3%a9",
+CORE = ["a", "z", "1", ".", "!", "+", ":", "@", "/", "?", "=", "&", "#", "%2F", "%3F", "%23", "%26", "%3D", "%40", "%3A", "%25", "%2B", "%41", "%34", "%c3%a9", "%cE%b1",
         "é", " ", "%20", "%", "%4", "%zz", "%E9", "%E2%82", "%00", "%0A", "%7F", "%C2%80", "%2541"]
 
 
